@@ -48,6 +48,7 @@ EXPLANATION = (
     "request_client_cert covers every rule with require_cert or an allow-list. TLS delivery of "
     "the certificate is trusted. "
     "(A3, prefix) the rule prefix reaches CertificateAuthPathRule as a plain read of the configured key. (A6) the URL handed to middleware carries the handler's path (C19.N1-N3). (A8) the fingerprint function is sha256 over DER, untruncated and pure."
+    ' (A11) no method of ServerConfig rewrites certificate_auth_* / require_client_cert (carrier rule). (A12) CertificateAuthConfig defines no __len__/__bool__ while start_server tests it for truthiness.'
 )
 
 MW = "server.middleware"
@@ -603,5 +604,9 @@ def run(chk: Check) -> None:
     from .c19 import wire_fidelity
 
     wire_fidelity(chk, "A6", "the URL handed to the middleware carries exactly the path the handler acts on: normalised string and ParsedURL fields are built from the same components (= C19.N1-N3)")
+    from .common import config_fields_carrier, config_presence_tests
+
+    config_fields_carrier(chk, "A11", ("certificate_auth_", "require_client_cert"), "certificate rules", "a protected prefix is served under another rule than the one written in the configuration")
+    config_presence_tests(chk, "A12", ("CertificateAuthConfig",))
     chk.trusted = ["CPython ast parser", "engine CFG / abstract evaluator / path-form catalogue", "pathlib.resolve, posixpath.normpath, urllib.parse.unquote semantics"]
     chk.assumptions = ["fingerprint provenance is decided under C04.M3", "a canonicalisation written with an idiom outside the path-form catalogue would be reported although correct (stated residual risk)"]
